@@ -345,10 +345,13 @@ int main (int argc, char **argv) {
       char *p; heap_size = strtoul(argv[++i], &p, 0);
       if (*p == 'k' || *p == 'K') { heap_size *= 1024; p++; }
       else if (*p == 'm' || *p == 'M') { heap_size *= 1024*1024; p++; }
+      else if (*p == 'g' || *p == 'G') { heap_size *= 1024*1024*1024UL; p++; }
       if (*p == '/') {
         heap_max = strtoul(p + 1, &p, 0);
         if (*p == 'k' || *p == 'K') heap_max *= 1024;
         else if (*p == 'm' || *p == 'M') heap_max *= 1024*1024;
+        else if (*p == 'g' || *p == 'G') heap_max *= 1024*1024*1024UL;
+        else if (*p) die("bad heap size suffix");
       }
     } else if (!strcmp(argv[i], "-m") && i + 1 < argc) {
       strncat(imports, " '", sizeof(imports) - strlen(imports) - 1);
